@@ -10,9 +10,9 @@ import (
 	"math/big"
 	"os"
 	"os/exec"
-	"sync"
 	"strconv"
 	"strings"
+	"sync"
 	"time"
 )
 
